@@ -214,6 +214,19 @@ CHECKS = {
              'compositions incl. every insertion position of the subject; leaks show as a difference between two real runs.',
         note='reduced workflow keeps the transitive needs closure; positions quoted inside messages are masked as offsets; '
              'callees well-formed (first-reporter attribution belongs to C02/C10)'),
+    'C01': dict(
+        category='exploration', design_ref='5 (C01), 8',
+        technique='TLA+ specs Robust.tla (total case analysis position type x node kind x tag for parse.go and the yaml.v3 decoder '
+                  'channels; generator of single and paired mutations with allowed outcome sets), RobustScan.tla (progress of '
+                  'the placeholder scan loop) checked by TLC; every vector materialised on its input channel (workflow, '
+                  'action.yml, reusable workflow, actionlint.yaml) and run through Command.Main in child processes with '
+                  'bisection of failing batches; seeded byte-level driver whose records TLC validates (RobustTrace.tla)',
+        text='TLA+/TLC decide that the design handles every (position, kind, tag) combination and that the scan loop '
+             'terminates, and generate that product exhaustively; whether the Go code panics or hangs on an input is decided '
+             'by executing it (62 k vectors + 20 k random records in quick, 1.28 M evaluations in thorough). Level exploration: '
+             'byte strings far from any schema-derived document are reached only by the random driver.',
+        note='per-input limit 2 s wall (a hang is confirmed by three runs alone and a 240 s run); one slow-but-terminating '
+             'input class (quadratic snippet output for 8 k errors on one 57 KB line) is recorded as a note'),
 }
 
 REASON_NOT_YET = 'check not built yet in this revision of /verif (planned, see DESIGN.md section 5); not claimed'
